@@ -20,7 +20,7 @@ ID = "C14"
 RULE = (
     "Hypothesis draws a discretisation (Mpfa / Mpsa / Biot), a 2-d/3-d grid (Cartesian, tensor, triangles, tetrahedra, "
     "perturbed, affine, rotated; Mpfa also 2-d grids embedded in 3-d), heterogeneous parameters (SPD tensor x cell "
-    "factor; cell-wise Lame parameters; Biot: a float and a heterogeneous diagonal coupling tensor), per-face "
+    "factor; cell-wise Lame parameters; Biot: a float and a cell-wise heterogeneous diagonal SecondOrderTensor coupling coefficient, contrast up to 16), per-face "
     "Dirichlet/Neumann types, and a variation: (split) partition_arguments num_subproblems=k or max_memory=peak/k, "
     "k in 2..min(8,cells); (inverter) python instead of numba; (partial) a fresh discretisation with specified_cells / "
     "_faces / _nodes (nodes = all nodes of a random cell set); (update) update_discretization=True with such a set on "
@@ -52,7 +52,8 @@ ASSUMPTIONS = [
 ]
 REQUIRED = {"mpfa": 0.2, "mpsa": 0.15, "biot": 0.15, "mode-split": 0.2, "mode-partial": 0.15, "mode-update": 0.08,
             "mode-inverter": 0.05, "dim2": 0.2, "dim3": 0.2, "split-shared-face": 0.1, "partial-proper": 0.1,
-            "by-memory": 0.05, "python-inverter": 0.1}
+            "by-memory": 0.05, "python-inverter": 0.1,
+            "active-cells-reindexed": 0.05, "biot-het-alpha-reindexed": 0.02}
 
 RTOL = 1e-10
 
@@ -98,6 +99,11 @@ def _is_tilted(grid):
 def _spec(draw, tier):
     disc = draw(st.sampled_from(["mpfa", "mpfa", "mpsa", "biot"]))
     big = tier == "thorough"
+    modes = ["split", "split", "split", "partial", "partial", "update", "inverter"]
+    if disc == "biot":
+        # restricted discretisations are where the cell-wise Biot coefficients are re-indexed: keep them frequent
+        modes = ["split", "split", "partial", "partial", "partial", "update", "update", "inverter"]
+    mode = draw(st.sampled_from(modes))
     if disc == "mpfa":
         grid = draw(grid_spec(dims=(2, 2, 3), poly=False, max_amp=0.15, max_n=5 if big else 4, max_n3=3 if big else 2))
         if grid["kind"] == "tet":
@@ -105,18 +111,22 @@ def _spec(draw, tier):
         par = {"K": draw(fv.spd_spec(het=True))}
         bc = draw(fv.bc_spec())
     else:
-        grid = draw(mech_grid_spec(max_n=4 if big else 3, max_n3=2, dims=(2, 2, 3)))
+        if disc == "biot" and mode in ("partial", "update"):
+            # larger 2-d lattices so that the active cells are a proper, non-leading subset of the grid
+            grid = draw(mech_grid_spec(max_n=6 if big else 5, max_n3=2, dims=(2, 2, 2, 3)))
+        else:
+            grid = draw(mech_grid_spec(max_n=4 if big else 3, max_n3=2, dims=(2, 2, 3)))
         if grid["kind"] == "tet":
             grid = _cap_cells(grid, 4 if big else 2)
         par = {"lame": draw(fv.lame_het_spec())}
         if disc == "biot":
+            # "a": float; "b": cell-wise heterogeneous diagonal SecondOrderTensor (contrast up to amp^2)
             par["alpha"] = {"a": draw(fv._f(0.2, 1.5)), "b": [draw(fv._f(0.2, 1.5)) for _ in range(3)],
-                            "seed": draw(st.integers(0, 1000))}
+                            "seed": draw(st.integers(0, 1000)), "amp": draw(fv._f(1.5, 4.0))}
         bc = draw(vbc_spec())
     ncell = cells_estimate(grid)
     heavy = grid["dim"] == 3 and disc != "mpfa"  # 3-d vector problems: 30-50 ms per cell and subproblem
     kmax = min(8, ncell) if not heavy else min(4 if big else 3, ncell)
-    mode = draw(st.sampled_from(["split", "split", "split", "partial", "partial", "update", "inverter"]))
     var = {"mode": mode, "k": 1, "by_mem": False, "inverter": "numba", "partial": None, "skip_vs": False}
     py_ok = not heavy or ncell <= 12  # the python inverter loops over the local systems
     if mode == "inverter":
@@ -181,7 +191,7 @@ def _setup(spec, g):
     if disc == "mpsa":
         return pp.Mpsa(kw), kw, base, "inverter"
     a = spec["par"]["alpha"]
-    base["scalar_vector_mappings"] = fv.build_alphas(a["a"], a["b"], g, a["seed"])
+    base["scalar_vector_mappings"] = fv.build_alphas(a["a"], a["b"], g, a["seed"], a.get("amp"))
     return pp.Biot(kw), kw, base, "inverter"
 
 
@@ -274,6 +284,15 @@ def _count_shared_faces(discr, g, k, by_mem, peak):
     return len(parts), int((cnt > 1).sum())
 
 
+def _subset_labels(disc, g, active_cells):
+    """Restricted discretisation whose active cells are not the leading cells 0..n-1 of the grid: cell-wise
+    parameters must be re-indexed through the active grid (for Biot: the heterogeneous coupling tensor)."""
+    ac = np.unique(np.asarray(active_cells, dtype=int))
+    if ac.size < g.num_cells and not np.array_equal(ac, np.arange(ac.size)):
+        return ["active-cells-reindexed"] + (["biot-het-alpha-reindexed"] if disc == "biot" else [])
+    return []
+
+
 # ----------------------------------------------------------------------------- check
 def check(spec):
     import porepy as pp
@@ -330,6 +349,7 @@ def check(spec):
         data = _run(discr, kw, g, base, extra, data=data)
         v = _flatten(data[pp.DISCRETIZATION_MATRICES][kw])
         af = np.asarray(data[pp.PARAMETERS][kw]["active_faces"], dtype=int)
+        labels.extend(_subset_labels(disc, g, data[pp.PARAMETERS][kw]["active_cells"]))
         if 0 < af.size < g.num_faces:
             labels.append("partial-proper")
             nontrivial = True
@@ -351,6 +371,7 @@ def check(spec):
     v = _flatten(data[pp.DISCRETIZATION_MATRICES][kw])
     af = np.unique(np.asarray(data[pp.PARAMETERS][kw]["active_faces"], dtype=int))
     ac = np.unique(np.asarray(data[pp.PARAMETERS][kw]["active_cells"], dtype=int))
+    labels.extend(_subset_labels(disc, g, ac))
     require(np.all(np.isin(target_faces, af)), "partial-targets",
             lambda: f"targeted faces {np.setdiff1d(target_faces, af)} not in active_faces")
     if 0 < af.size < g.num_faces:
